@@ -39,6 +39,20 @@ def _ip_consts():
     }
 
 
+@unit("fn_ip")
+def _fn_ip():
+    import os
+
+    sys.path.insert(0, os.path.dirname(os.path.abspath(__file__)))
+    import translate
+    import netconan.ip_anonymization as pm
+
+    text, done, failed = translate.translate_module(pm.__file__, pm)
+    need = ["_BaseIpAnonymizer.__init__", "_BaseIpAnonymizer.anonymize", "_BaseIpAnonymizer._anonymize_bits", "_BaseIpAnonymizer.deanonymize", "_BaseIpAnonymizer._deanonymize_bits"]
+    # functions that need bindings this translator does not have (regex, ipaddress text, md5) are expected to be refused; the bit-walk family is not
+    return {"coq": text, "translated": done, "refused": failed, "missing_core": [n for n in need if n not in done]}
+
+
 @unit("cli_consts")
 def _cli_consts():
     from netconan import netconan as nn
